@@ -37,7 +37,7 @@ H = 1e-3
 def build(case):
     import pyhf
 
-    model = pyhf.Model(copy.deepcopy(case["spec"]), poi_name="mu", modifier_settings=case["settings"])
+    model = pyhf.Model(copy.deepcopy(case["spec"]), poi_name=case.get("poi", "mu"), modifier_settings=case["settings"])
     return model
 
 
@@ -167,13 +167,26 @@ def check_case(case, shard):
     if onbp:
         shard.covered("regimes", "on a breakpoint")
     shard.covered("stitch", stitch)
+    shard.covered("model_kinds", "no POI, bin-wise modifiers only" if case.get("poi", "mu") is None else "POI and mixed modifiers")
     shard.covered("settings", f"{case['settings']['histosys']['interpcode']}/{case['settings']['normsys']['interpcode']}")
 
 
 def make_case(rng, backend):
     import pyhf
 
-    spec, _ = gen.gen_spec(rng, profile="wellposed", max_channels=2, max_samples=3, max_bins=3, max_nuis=9)
+    # one case in five is a model without a POI whose modifiers are all bin-wise (shapesys, staterror, shapefactor): every
+    # parameter then reaches the rates through a gather, and TensorFlow hands back a sparse (IndexedSlices) gradient
+    binwise_only = rng.random() < 0.2
+    if binwise_only:
+        spec, _ = gen.gen_spec(rng, profile="wellposed", max_channels=2, max_samples=3, max_bins=3, max_nuis=9, types=["shapesys", "staterror", "shapefactor"])
+        for c in spec["channels"]:
+            for smp in c["samples"]:
+                smp["modifiers"] = [m for m in smp["modifiers"] if m["type"] != "normfactor"]
+        if not any(smp["modifiers"] for c in spec["channels"] for smp in c["samples"]):
+            binwise_only = False
+    if not binwise_only:
+        spec, _ = gen.gen_spec(rng, profile="wellposed", max_channels=2, max_samples=3, max_bins=3, max_nuis=9)
+    poi = None if binwise_only else "mu"
     spec["parameters"] = [p for p in spec["parameters"] if p["name"] == "lumi"]
     settings = rng.choice([
         {"histosys": {"interpcode": "code4p"}, "normsys": {"interpcode": "code4"}},
@@ -181,7 +194,7 @@ def make_case(rng, backend):
         {"histosys": {"interpcode": "code0"}, "normsys": {"interpcode": "code1"}},
         {"histosys": {"interpcode": "code2"}, "normsys": {"interpcode": "code1"}},
     ])
-    model = pyhf.Model(copy.deepcopy(spec), poi_name="mu", modifier_settings=settings)
+    model = pyhf.Model(copy.deepcopy(spec), poi_name=poi, modifier_settings=settings)
     cfg = model.config
     L = Layout(model)
     flags = c01.alpha_flags(spec, L)
@@ -213,7 +226,7 @@ def make_case(rng, backend):
     nfix = rng.choice([0, 1, 1, 2])
     fixed_idx = sorted(rng.sample(cand, min(nfix, len(cand) - 1)))
     return {"spec": spec, "settings": settings, "pars": pars, "data": data, "aux": aux, "fixed_idx": fixed_idx,
-            "stitch": rng.random() < 0.5, "backend": backend}
+            "stitch": rng.random() < 0.5, "backend": backend, "poi": poi}
 
 
 def plan(tier, seed):
